@@ -160,6 +160,16 @@ def run_agent(rp, events, finalize, scratch, block):
     os.chdir(d)
     try:
         a = make_agent(rp, scratch)
+        early = {'signal': None, 'done': False}
+        if finalize == 'stop':
+            # the main thread runs finalize() as soon as stop() has set the termination event, while the
+            # thread that called stop() is still inside it (it blocks in session.close())
+            def close():
+                if not early['done'] and a._term.is_set():
+                    early['done'] = True
+                    a.finalize()
+                    early['signal'] = open('killme.signal').read().strip()
+            a._session.close = close
         for e in events:
             if e == 'lifetime':
                 a._check_lifetime()          # time.time() >> _starttime + 60
@@ -173,7 +183,16 @@ def run_agent(rp, events, finalize, scratch, block):
                 a._control_cb('control_pubsub', {'cmd': 'terminate', 'arg': None})
         cause = a._final_cause
         signal = None
-        if finalize:
+        if finalize == 'stop':
+            signal = early['signal']
+            if signal is not None:
+                pushed = [t['state'] for t in a.advanced if isinstance(t, dict)]
+                if pushed != [signal]:
+                    signal = 'MISMATCH %s vs %s' % (pushed, signal)
+            else:
+                try: os.unlink('killme.signal')
+                except OSError: pass
+        elif finalize:
             a.finalize()
             signal = open('killme.signal').read().strip()
             pushed = [t['state'] for t in a.advanced if isinstance(t, dict)]
@@ -194,7 +213,11 @@ def monitor_agent(events, finalize, res):
     for e in events:
         if e in ('lifetime', 'cancel_named'):
             last = e
-    if not finalize:
+    if finalize == 'stop':
+        # finalize races with the stopping thread: the first event that stops the agent decides
+        first = next((e for e in events if e in ('lifetime', 'cancel_named', 'terminate')), None)
+        want = {'lifetime': 'DONE', 'cancel_named': 'CANCELED', 'terminate': 'CANCELED', None: 'FAILED'}[first]
+    elif not finalize:
         want = 'FAILED'                       # crash before the state is written
     elif last == 'lifetime':
         want = 'DONE'
@@ -269,7 +292,7 @@ def run(ctx):
     import time as _time
     for n in range(0, 5):
         for evs in itertools.product(EVENTS, repeat=n):
-            for fin in (True, False):
+            for fin in (True, False, 'stop'):
                 res = run_agent(rp, list(evs), fin, ctx.scratch, block)
                 op  = {'op': 'cause', 'events': list(evs), 'finalize': fin}
                 ops.append(op)
@@ -300,7 +323,7 @@ def run(ctx):
     ctx.obligation('tmgr scheduler: tracked pilot states monitored on the real RoundRobin / Backfilling objects', 'tie', True, '')
     ctx.rule = ('exhaustive: all pilot state pairs; all notification streams of length <=2 (quick) / <=3 (thorough) from every '
                 'start state; all agent event sequences of length <=4 over {lifetime, cancel naming the pilot, foreign cancel, '
-                'terminate} x {finalize runs, agent dies before}; sampled: random streams of length 3-9; '
+                'terminate} x {finalize runs afterwards, finalize runs in the main thread during the first stop(), agent dies before}; sampled: random streams of length 3-9; '
                 'non-trivial = at least one callback / at least one event')
     ctx.assume += ['the batch system killing the job (no finalize at all) is the "agent dies" case',
                    'time.time() is far beyond the 1 minute runtime when the lifetime check runs',
